@@ -25,6 +25,8 @@ import (
 	"path/filepath"
 	"strings"
 	"text/template/parse"
+
+	"gtverif/internal/gentmpl"
 )
 
 func q(s string) string {
@@ -208,14 +210,21 @@ func main() {
 	repo := flag.String("repo", "/repo", "root of the tree to read")
 	out := flag.String("out", "GsortTmplGen.v", "output file")
 	flag.Parse()
-	path := filepath.Join(*repo, "gsort", "gen", "gsort.gotmpl")
+	// the template the generator executes: found through the package's file set (go:embed), refused
+	// when an init() or any other code can swap or reconfigure it
+	found, err := gentmpl.Find(filepath.Join(*repo, "gsort", "gen"))
+	if err != nil {
+		fmt.Fprintln(os.Stderr, "xlate_gsort_tmpl:", err)
+		os.Exit(1)
+	}
+	path := found.File
 	raw, err := os.ReadFile(path)
 	if err != nil {
 		fmt.Fprintln(os.Stderr, "xlate_gsort_tmpl:", err)
 		os.Exit(1)
 	}
 	trees := map[string]*parse.Tree{}
-	t := parse.New("gsort.gotmpl")
+	t := parse.New("gsort.gotmpl") // the name of the root tree below
 	t.Mode = parse.SkipFuncCheck
 	if _, err := t.Parse(string(raw), "", "", trees); err != nil {
 		fmt.Fprintln(os.Stderr, "xlate_gsort_tmpl:", err)
